@@ -440,6 +440,10 @@ static void with_sched(const PipeCfg &pc, size_t nblocks, OpOut &out, F f)
   vsched::begin(&ch, maxs, false);
   if (pc.fail_new >= -1)
     allocfault::arm(pc.fail_new);
+  else if (pc.fail_big == 1) // new iobuffer[T] (16 MiB per element in the production build); array cookie included
+    allocfault::arm_size((unsigned long)pc.T * sizeof(iobuffer), (unsigned long)pc.T * sizeof(iobuffer) + 32);
+  else if (pc.fail_big == 2) // new filebuffer64 (32 MiB in the production build)
+    allocfault::arm_size(sizeof(filebuffer64), sizeof(filebuffer64));
   try
   {
     f();
